@@ -22,6 +22,7 @@ type Job struct {
 	C10      *C10Cfg `json:"c10,omitempty"`
 	C05      *C05Cfg `json:"c05,omitempty"`
 	C18      *C18Cfg `json:"c18,omitempty"`
+	C03      *C03Cfg `json:"c03,omitempty"`
 	CodecSig string  `json:"codec_sig,omitempty"` // harness "codec": the violation signature to re-check
 	Mode     string  `json:"mode"`                // explore | split | replay
 	B        Bounds  `json:"bounds"`
@@ -99,6 +100,8 @@ func runOnce(job *Job, ch vs.Chooser, trace bool) (*vs.Result, *Outcome) {
 		out, res = runC05(job.C05, cc, trace)
 	case "C18atom":
 		out, res = runC18(job.C18, cc, trace)
+	case "C03conc":
+		out, res = c03Run(job.C03, cc, trace)
 	default:
 		return &vs.Result{Fatal: "unknown harness " + job.Harness}, nil
 	}
@@ -150,6 +153,8 @@ func (job *Job) cfgString() string {
 		return job.C05.String()
 	case job.C18 != nil:
 		return job.C18.String()
+	case job.C03 != nil:
+		return job.C03.String()
 	case job.Harness == "codec":
 		return "codec product space (Wire.Write -> Wire.Read), part producing " + job.CodecSig
 	}
